@@ -16,6 +16,7 @@ MAP = {
  'process-death-no-result': 'report a result when a raptor task process',
  'tout-staging-error-records-exception': 'tmgr output staging records the exception', 'roundrobin-failure-records-exception': 'round robin tmgr scheduler records',
  'early-bound-error-fails-one-task': 'binding one early-bound task',
+ 'late-check-two-handons': 'late cancel check in Popen', 'launch-error-left-in-tasks': 'fails to launch is removed', 'intake-filter-no-unschedule': 'executor\'s intake releases',
  'quote-task-env-values': 'quote task environment values', 'quote-stdout-stderr-names': 'quote stdout/stderr file names', 'control-sub-address': 'RP_CONTROL_SUB_ADDRESS',
 }
 def find(words):
